@@ -392,7 +392,10 @@ func (f *frame) callContract(st *State, callee *ssa.Function, cc *Contract, args
 		n := *sc
 		n.st = pre
 		q := n.evalBool(cc.PanicsIf.Expr)
-		if f.isTop && f.c != nil && f.c.PanicsIf != nil {
+		if vc.contract != nil && vc.contract.MayPanic {
+			// the caller is allowed to panic: a propagated panic is no obligation
+			vc.assumeUnder(st.reach, not(q))
+		} else if f.isTop && f.c != nil && f.c.PanicsIf != nil {
 			// the callee's panic propagates: allowed exactly when the caller's own
 			// panics_if condition holds
 			psc := f.specCtx(vc.oldState, vc.oldState)
